@@ -199,6 +199,16 @@ def run_grid(shard, ctx):
                 ov = [(0, 'A1', x)] + ([] if blank else [(0, 'B1', n)])
                 r.count('digit_count_supplied_indirectly')
                 _check(r, fn, text, n, book.value(0, cell, ov), 'digits-via:' + cell, mon)
+    # amounts below 0.1 (zeros right behind the point) at digit counts around and beyond the fifteenth significant digit
+    if 'f' not in shard:
+        for text in (f'{sign}0.00123456789012345', f'{sign}0.0123456789012345', f'{sign}0.000{ip}5', f'{sign}0.0{ip}25', f'{sign}0.000000123456789', f'{sign}1.5e-300', f'{sign}0.0999999999999995'):
+            x = float(text)
+            t15 = format(Decimal(text), 'f') if 'e' in text else text
+            for n in (10, 13, 14, 15, 16, 17, 18, 20, 25, 299, 300, 301):
+                ov = [(0, 'A1', x), (0, 'B1', n)]
+                for (fn, cell), out in zip(FCELL.items(), book.values(0, list(FCELL.values()), ov)):
+                    r.count('small_amounts_at_high_digit_counts')
+                    _check(r, fn, t15, n, out, 'override', mon)
     # a logical value as the amount (an IF without an else branch hands over FALSE): rounding makes the NUMBER 0 or 1 of it at every digit count
     if 'f' not in shard:
         for lv, num in ((True, 1), (False, 0)):
